@@ -66,6 +66,7 @@ type bfsPoolStats struct {
 func bfsPool(run *ev.Run, p *pool.Pool, sys string, arg interface{}, maxDepth, stateCap int, ops func(hist []string) []string) bfsPoolStats {
 	raw, _ := json.Marshal(arg)
 	st := bfsPoolStats{Outcomes: map[string]int{}}
+	p.AbortOnTimeout = true // transitions take milliseconds; one that runs into the 120 s limit ends the search
 	seen := map[string]struct{}{}
 	// initial state
 	res0 := p.Map("bfs", []interface{}{bfsJob{Sys: sys, Arg: raw}}, nil)
@@ -146,6 +147,8 @@ func decodeBfs(run *ev.Run, sys string, hist []string, pr pool.Result, st *bfsPo
 	if pr.Timeout {
 		if strings.Contains(pr.Dump, "vsync.(*Mutex).Lock") {
 			run.Violation("wedged/"+sys, map[string]interface{}{"history": hist, "dump": tailStr(pr.Dump, 6000)})
+		} else if site, g, ok := spinWitness(pr.Dump); ok {
+			run.Violation("operation-does-not-return/"+site, map[string]interface{}{"history": hist, "goroutine": tailStr(g, 3000)})
 		} else {
 			run.NotExhaustive("a transition timed out without a lock-wait witness (inconclusive): " + hs)
 		}
@@ -153,6 +156,11 @@ func decodeBfs(run *ev.Run, sys string, hist []string, pr pool.Result, st *bfsPo
 	}
 	if pr.Panic != "" {
 		run.Violation("panic/bfs/"+firstLine(pr.Panic), map[string]interface{}{"history": hist, "panic": tailStr(pr.Panic, 6000), "replay": rp})
+		return nil, false
+	}
+	if strings.HasPrefix(pr.Err, "skipped:") {
+		st.Capped = true
+		run.NotExhaustive("search ended early: " + pr.Err)
 		return nil, false
 	}
 	if pr.Err == "worker died" {
